@@ -7,6 +7,7 @@ import Solstat.Spec.C06
 import Solstat.Spec.C09
 import Solstat.Spec.C08
 import Solstat.Spec.Dir
+import Solstat.Spec.Report
 import Solstat.Gen.Patterns
 /-!
 # Correspondence-check plumbing (not part of the verified model)
@@ -237,6 +238,27 @@ def parseDirResult (s : String) : List (String × List (String × List Nat)) :=
 
 def sortPairs (xs : List (String × List Nat)) : List (String × List Nat) :=
   (xs.toArray.qsort (fun a b => a.1 < b.1 || (a.1 == b.1 && toString a.2 < toString b.2))).toList
+
+/-! report requests -/
+
+def optOfName (n : String) : Option Optimization := optAll.find? (fun p => p.name == n)
+def vulnOfName (n : String) : Option Vulnerability := vulnAll.find? (fun p => p.name == n)
+def qaOfName (n : String) : Option QualityAssurance := qaAll.find? (fun p => p.name == n)
+
+def decodeFindings {P : Type} (ofName : String → Option P) (s : String) : List (P × Files) :=
+  if s.isEmpty then [] else
+  (s.splitOn ",").filterMap fun kv =>
+    match kv.splitOn "=" with
+    | [k, v] =>
+      (ofName k).map fun p => (p, if v.isEmpty then [] else (v.splitOn "|").filterMap fun fl =>
+        match fl.splitOn ":" with
+        | [f, ls] => some (bytesToString (unhex f.toList), (ls.splitOn ";").filterMap String.toNat?)
+        | _ => none)
+    | _ => none
+
+def reportLinesOfHex (h : String) : List String :=
+  let text := bytesToString (unhex h.toList)
+  (text.splitOn "\n").dropLast
 
 def lookup {α : Type} (m : List (String × α)) (k : String) : Option α := (m.find? (fun e => e.1 == k)).map (·.2)
 
